@@ -71,6 +71,7 @@ type Config struct {
 	KAPings      []KAPing `json:"ka_pings,omitempty"`
 	KACancelUs   int64    `json:"ka_cancel_us,omitempty"` // parent ctx cancelled at this time (0 = never)
 	KAPreCancel  bool     `json:"ka_precancel,omitempty"`
+	KADeadline   bool     `json:"ka_deadline,omitempty"` // the parent context ends by a deadline of its own at KACancelUs instead of being cancelled
 }
 
 // KAPing is the scripted outcome of the i-th Ping in the keepalive family.
